@@ -860,6 +860,20 @@ fn with_base(a: &FArg, nb: u64, p: Option<usize>) -> Res {
         (2, 2) => wb_mode!(2, 2, a, p),
         (16, 16) => wb_mode!(16, 16, a, p),
         (3, 3) => wb_mode!(3, 3, a, p),
+        // round 6 (C08): commensurable bases that are NOT powers of one another (ilog_exact must answer 0: loop ends with pow > n)
+        (4, 32) => wb_mode!(4, 32, a, p),
+        (32, 4) => wb_mode!(32, 4, a, p),
+        (4, 8) => wb_mode!(4, 8, a, p),
+        (8, 4) => wb_mode!(8, 4, a, p),
+        (16, 8) => wb_mode!(16, 8, a, p),
+        (9, 27) => wb_mode!(9, 27, a, p),
+        (27, 9) => wb_mode!(27, 9, a, p),
+        // ... and nested powers whose root is not 2 / whose smaller base is not prime (ilog_exact n >= 2)
+        (4, 16) => wb_mode!(4, 16, a, p),
+        (16, 4) => wb_mode!(16, 4, a, p),
+        (3, 9) => wb_mode!(3, 9, a, p),
+        (9, 3) => wb_mode!(9, 3, a, p),
+        (27, 3) => wb_mode!(27, 3, a, p),
         _ => Err(format!("bad-arg base-pair {} {}", a.base, nb)),
     }
 }
@@ -986,6 +1000,9 @@ fn with_base_chk(a: &FArg, nb: u64, p: Option<usize>) -> Res {
         (3, 2) => wbc_mode!(3, 2, a, p),
         (36, 10) => wbc_mode!(36, 10, a, p),
         (10, 36) => wbc_mode!(10, 36, a, p),
+        (4, 32) => wbc_mode!(4, 32, a, p),
+        (32, 4) => wbc_mode!(32, 4, a, p),
+        (27, 9) => wbc_mode!(27, 9, a, p),
         _ => Err(format!("bad-arg base-pair {} {}", a.base, nb)),
     }
 }
